@@ -73,7 +73,7 @@ theorem inv_stopCS {c : Cfg} {s : State} {t : Nat} {rest : List Act} {isD : Bool
         · intro hm; rw [hs.1 hm] at hl; cases hl
         · intro he; injection he with he; exact absurd he.symm hut
     · have hc : ¬ s.q.contains j = true := fun hc => hj ((hqc j).1 hc)
-      simp only [hc, ↓reduceIte]
+      simp only [hc]
       by_cases hut : u = t
       · subst hut
         simp only [↓reduceIte]
